@@ -133,13 +133,19 @@ def flood_scenarios(seed_, variants=("resume", "fail")):
     r = random.Random("spy-flood-%d" % seed_)
     res = []
     for variant in variants:
-        a, b = r.sample([{"c": c, "a": x} for c in CHAINS for x in ADDRS], 2)
-        f1 = [] if variant == "resume" else [a]
-        steps = [{"ev": "Subscribe", "a": {"s": "s1", "f": f1}}, {"ev": "Subscribe", "a": {"s": "s2", "f": [b]}},
-                 {"ev": "Subscribe", "a": {"s": "s3", "f": [b, r.choice([{"c": 2, "a": "a9"}, {"c": 77, "a": "a1"}])]}},
+        a, b, c = r.sample([{"c": ch, "a": x} for ch in CHAINS for x in ADDRS], 3)
+        # a: the stalled subscriber only; b: the readers only; c: both (used around the overflow point)
+        f1 = [] if variant == "resume" else [a, c]
+        extra = r.choice([{"c": 2, "a": "a9"}, {"c": 77, "a": "a1"}])
+        # registration order matters to an implementation that keeps subscriptions in a list: readers before the stalled
+        # subscriber, immediately after it, and last
+        steps = [{"ev": "Subscribe", "a": {"s": "s2", "f": [b, c]}},
+                 {"ev": "Subscribe", "a": {"s": "s1", "f": f1}},
+                 {"ev": "Subscribe", "a": {"s": "s3", "f": [c, b, extra]}},
+                 {"ev": "Subscribe", "a": {"s": "s5", "f": [b, c]}},
                  {"ev": "Publish", "a": {"v": {"id": "v1", "em": a}}}, {"ev": "Sync", "a": {}},
                  {"ev": "Stall", "a": {"s": "s1"}},
-                 {"ev": "Flood", "a": {"em": a, "other": b, "extra": r.choice([3, 4, 6]), "every": r.choice([89, 97, 131])}},
+                 {"ev": "Flood", "a": {"em": a, "other": b, "both": c, "extra": r.choice([3, 4, 6]), "every": r.choice([89, 97, 131])}},
                  {"ev": "Sync", "a": {}},
                  {"ev": "Subscribe", "a": {"s": "s4", "f": []}},
                  {"ev": "Publish", "a": {"v": {"id": "v2", "em": a}}},
@@ -147,7 +153,7 @@ def flood_scenarios(seed_, variants=("resume", "fail")):
                  {"ev": "Sync", "a": {}},
                  {"ev": "Resume" if variant == "resume" else "Fail", "a": {"s": "s1"}},
                  {"ev": "Publish", "a": {"v": {"id": "v3", "em": b}}},
-                 {"ev": "Publish", "a": {"v": {"id": "v4", "em": a}}}]
+                 {"ev": "Publish", "a": {"v": {"id": "v4", "em": c}}}]
         res.append({"steps": steps, "src": "flood-" + variant})
     return res
 
